@@ -13,8 +13,9 @@ from harness.trace import Run, result_str
 
 PROP = "C13"
 THEOREMS = ["Lbfgsb.C13.filter_keeps_newest", "Lbfgsb.C13.filter_subsequence", "Lbfgsb.C13.filter_curvature",
-            "Lbfgsb.C13.identity_filter_noop"]
-MODULES = ["LbfgsbVerif.Props.C13"]
+            "Lbfgsb.C13.identity_filter_noop",
+            "Lbfgsb.C13.memStep_mats_current", "Lbfgsb.C13.identity_update_transparent", "Lbfgsb.C13.curv_test_symmetric"]
+MODULES = ["LbfgsbVerif.Props.C13", "LbfgsbVerif.Props.C13Run"]
 
 
 def subseq_pairs(Xs: List[np.ndarray], Gs: List[np.ndarray], sk: np.ndarray, yk: np.ndarray) -> bool:
